@@ -1,5 +1,6 @@
 '''C09 Grow-only containers: append-only, all-or-nothing, never shared.'''
 from sfa.report import Ctx
+from sfa.rules import indexrules
 from sfa.rules import atomic
 from sfa.rules import blockrules
 from sfa.rules import frozen
@@ -14,7 +15,7 @@ LEVEL_TEXT = (
     'mutators the components that must move together are all updated on every mutating path. All-or-nothing: after the first '
     'mutation no raise is reachable, per-item loops over fallible mutators are flagged, every fallible second mutation is '
     'pre-validated (duplicate check, row count). Reads after growth: lazy caches of Index / IndexHierarchy / ArrayGO are refreshed '
-    'before every read. Not decided: failures raised implicitly by NumPy or hashing (MemoryError, unhashable labels).')
+    'before every read. Cached leaf counts: an IndexLevelGO mutator that grows a node below the root resets the cached _length of every node recorded along its descent. Not decided: failures raised implicitly by NumPy or hashing (MemoryError, unhashable labels).')
 
 CLAIM = dict(
     text=LEVEL_TEXT,
@@ -39,3 +40,4 @@ def run(ctx: Ctx) -> None:
         f = ctx.prog.func(qual)
         root = {'type_blocks': ('_blocks',), 'index': ('_labels', '_positions'), 'array_go': ('_array',)}[qual.split('.')[0]]
         frozen._r1_function(ctx, d, 'A-R1.slot-frozen', f, root)
+    indexrules.ancestor_cache_invalidation(ctx)
